@@ -406,6 +406,23 @@ func init() {
 				add(c)
 			}
 			acRebuildCases(add)
+			// the batch entry point stops at a document it refuses: what was indexed before it (here: the widest document
+			// so far) stays indexed and must be reachable through hints at every conjunction position
+			{
+				one := func(v int64) eConj { return eConj{{F: 0, Inc: true, V: tvSlice("[]int", tvInt("int", v))}} }
+				c := rCase{Fields: []rField{{F: 0, Cont: "default"}}, Batch: 3}
+				c.Docs = []eDoc{
+					{ID: 1, Cons: []eConj{one(5)}},
+					{ID: 10, Cons: []eConj{one(1), one(2), one(5), one(6)}},
+					{ID: 99, Cons: []eConj{{{F: 9, Inc: true, V: tvSlice("[]int", tvInt("int", 1))}}}}, // unconfigured field: refused, last of its group
+					{ID: 2, Cons: []eConj{one(5)}},
+					{ID: 12, Cons: []eConj{one(7), one(5)}},
+				}
+				five, six := []eAssign{{F: 0, V: tvInt("int", 5)}}, []eAssign{{F: 0, V: tvInt("int", 6)}}
+				c.Ops = []rOp{{S: 0, Op: "docs", A: five}, {S: 1, Op: "hint", Hint: []int64{10, 2, 77}}, {S: 1, Op: "docs", A: five}, {S: 1, Op: "raw"},
+					{S: 0, Op: "reset"}, {S: 0, Op: "hint", Hint: []int64{10, 12}}, {S: 0, Op: "retrieve", A: six}, {S: 0, Op: "raw"}, {S: 2, Op: "hint", Hint: []int64{12}}, {S: 2, Op: "retrieve", A: five}}
+				add(c)
+			}
 			// value identity is 64 bits wide: values that agree in their low 32 bits (number parser: differing by a
 			// multiple of 2^32; -1 vs 4294967295) must keep separate posting lists, as include and as exclude
 			{
